@@ -96,7 +96,10 @@ func (w *World) decRegistrar() *ssa.Function {
 				if fa, ok := st.Addr.(*ssa.FieldAddr); ok && w.fieldNameOfAddr(fa) == "Decoder."+w.fieldName("Decoder", fi) {
 					if c, ok := st.Val.(*ssa.Call); ok {
 						if bi, ok := c.Call.Value.(*ssa.Builtin); ok && bi.Name() == "append" {
-							return fn
+							// the append may sit in a function literal of the registrar
+							// (`remember := func(entry reflect.Value) { d.refList = append(…) }`):
+							// the registrar is the declared function the readers call
+							return rootFn(fn)
 						}
 					}
 				}
@@ -357,56 +360,10 @@ func rulesC04(w *World, r *Report) {
 	}
 	r.floor("C04.R1 (writer, first emission) pairs", nW, 4)
 
-	// R2 registrar
-	f := w.flow(encReg)
-	nR := 0
-	fi := w.encRefField()
-	for _, b := range encReg.Blocks {
-		ret, ok := b.Instrs[len(b.Instrs)-1].(*ssa.Return)
-		if !ok || len(ret.Results) != 2 {
-			continue
-		}
-		k, isC := ret.Results[1].(*ssa.Const)
-		if !isC || k.Value == nil || k.Value.ExactString() != "false" {
-			continue
-		}
-		nR++
-		// every path entry→b passes a MapUpdate on the ref table
-		upd := map[*ssa.BasicBlock]bool{}
-		var valueDesc string
-		for _, bb := range encReg.Blocks {
-			for _, in := range bb.Instrs {
-				if mu, ok := in.(*ssa.MapUpdate); ok {
-					if o, fld, ok := w.fieldOfLoad(mu.Map); ok && o == "Encoder" && fld == fi {
-						upd[bb] = true
-						valueDesc = f.term(mu.Value).Key()
-					}
-				}
-			}
-		}
-		reachable := false
-		seen := map[*ssa.BasicBlock]bool{}
-		var walk func(x *ssa.BasicBlock)
-		walk = func(x *ssa.BasicBlock) {
-			if seen[x] || upd[x] {
-				return
-			}
-			seen[x] = true
-			if x == b {
-				reachable = true
-				return
-			}
-			for _, s := range x.Succs {
-				walk(s)
-			}
-		}
-		if !upd[b] {
-			walk(encReg.Blocks[0])
-		}
-		okOrd := strings.Contains(valueDesc, "len(")
-		r.add("C04.R2 a miss inserts and takes the next ordinal", fmt.Sprintf("%s · not-found return #%d", fnName(encReg), nR), w.instrPos(ret), !reachable && okOrd,
-			fmt.Sprintf("every path to this return passes the insertion=%v; stored ordinal = %s", !reachable, valueDesc))
-	}
+	// R2 registrar: read from its paths (rules_registrar_px.go) — every path that reports
+	// 'not found' passes the insertion of len(table); the floor counts the returns such a
+	// path reaches, whatever their operands look like
+	nR := w.ruleRegistrarMiss(r, "C04.R2 a miss inserts and takes the next ordinal", encReg)
 	r.floor("C04.R2 not-found returns of the registrar", nR, 1)
 	w.ruleRefKeyPins(r, "C04.R2 a miss inserts and takes the next ordinal")
 	w.ruleRefKeyIdentity(r, "C04.R6 the ref key identifies the container")
@@ -509,16 +466,57 @@ func rulesC04(w *World, r *Report) {
 
 	// R4 late-bound slices
 	nA := 0
+	// the container readers, the function literals they write (the append may sit in
+	// the store closure handed to a shared element loop) and the private helpers that
+	// are only ever called — statically — from those (`growList(holder, list, elem)` =
+	// Append + change): each mapped to the container readers it serves
+	serves := map[*ssa.Function]map[*ssa.Function]bool{}
 	for _, fn := range w.SrcFuncs() {
-		// the container readers and the function literals they write (the append may
-		// sit in the store closure handed to a shared element loop)
-		registers := false
 		for f := fn; f != nil; f = f.Parent() {
 			if len(callsTo(f, decReg)) > 0 {
-				registers = true
+				if serves[fn] == nil {
+					serves[fn] = map[*ssa.Function]bool{}
+				}
+				serves[fn][f] = true
 			}
 		}
-		if !registers {
+	}
+	for changed := true; changed; {
+		changed = false
+		for _, fn := range w.SrcFuncs() {
+			if fn.Parent() != nil || fn.Signature.Recv() != nil || token.IsExported(fn.Name()) || fn == decReg {
+				continue
+			}
+			n := w.CG.Nodes[fn]
+			if n == nil || len(n.In) == 0 {
+				continue
+			}
+			all := true
+			for _, e := range n.In {
+				c, isC := e.Site.(*ssa.Call)
+				if !isC || c.Call.StaticCallee() != fn || e.Caller.Func == nil || serves[e.Caller.Func] == nil {
+					all = false
+				}
+			}
+			if !all {
+				continue
+			}
+			for _, e := range n.In {
+				for o := range serves[e.Caller.Func] {
+					if serves[fn] == nil {
+						serves[fn] = map[*ssa.Function]bool{}
+					}
+					if !serves[fn][o] {
+						serves[fn][o] = true
+						changed = true
+					}
+				}
+			}
+		}
+	}
+	appendReaders := map[*ssa.Function]bool{}
+	for _, fn := range w.SrcFuncs() {
+		if serves[fn] == nil {
 			continue
 		}
 		for _, cs := range w.callSitesIn(fn) {
@@ -526,6 +524,9 @@ func rulesC04(w *World, r *Report) {
 				continue
 			}
 			nA++
+			for o := range serves[fn] {
+				appendReaders[o] = true
+			}
 			ok := false
 			isChange := func(c2 *ssa.Call) bool {
 				return c2.Call.StaticCallee() != nil && fnName(c2.Call.StaticCallee()) == "(*_refHolder).change" && c2.Block() == cs.call.Block()
@@ -566,7 +567,10 @@ func rulesC04(w *World, r *Report) {
 				map[bool]string{true: "the appended slice is passed to holder.change in the same block", false: "after reflect.Append the holder still refers to the old backing array"}[ok])
 		}
 	}
-	r.floor("C04.R4 Append sites in container readers", nA, 2)
+	// floor over the container readers whose growth was examined (typed list, untyped
+	// list), not over Append sites: two readers may grow their slice through one helper
+	_ = nA
+	r.floor("C04.R4 container readers whose Append sites were examined", len(appendReaders), 2)
 	w.ruleHolderChangePX(r, "C04.R4 grown slices are re-announced to their holder")
 	w.ruleRefBinding(r, "C04.R5 references keep identity")
 }
@@ -739,22 +743,11 @@ func rulesC05(w *World, r *Report) {
 	}
 	consumers := w.canReach(tg)
 	// the field loop: bound is len(cls.FieldName) — a loop whose header compares a φ with len(field of the ClassDef parameter)
-	var loop *loopInfo
-	var counter ssa.Value // indexes the current iteration's definition name: the counter φ, or counter+1 in a range loop
-	for _, lp := range naturalLoops(ro) {
-		for b := range lp.body {
-			iff, ok := b.Instrs[len(b.Instrs)-1].(*ssa.If)
-			if !ok {
-				continue
-			}
-			bo, ok := iff.Cond.(*ssa.BinOp)
-			if !ok || bo.Op != token.LSS {
-				continue
-			}
-			if ix := iterationIndex(iff.Cond, lp.header); ix != nil && strings.HasPrefix(f.term(bo.Y).Key(), "len(") {
-				loop, counter = lp, ix
-			}
-		}
+	// (in the reader itself or in a function extracted from it, rules_c05loop.go)
+	helpers := w.privateHelpers(ro)
+	lf, loop, counter := w.fieldLoopOf(ro, helpers) // counter indexes the current iteration's definition name: the counter φ, or counter+1 in a range loop
+	if lf != nil {
+		f = w.flow(lf)
 	}
 	if loop == nil {
 		r.undecided("C05.R1 one wire value per definition field", "(*Decoder).readObject · field loop", w.pos(ro.Pos()), "no loop bounded by len(definition field names) found")
@@ -764,7 +757,7 @@ func rulesC05(w *World, r *Report) {
 	// second condition ("all Go fields filled", "enough read") leaves the remaining
 	// wire values of the instance on the stream
 	{
-		idx := errIndex(ro.Signature)
+		idx := errIndex(lf.Signature)
 		nExit, badExit := 0, ""
 		for b := range loop.body {
 			iff, ok := b.Instrs[len(b.Instrs)-1].(*ssa.If)
@@ -776,7 +769,7 @@ func rulesC05(w *World, r *Report) {
 					continue
 				}
 				nExit++
-				if bo, isBo := iff.Cond.(*ssa.BinOp); isBo && bo.Op == token.LSS && iterationIndex(iff.Cond, loop.header) != nil && strings.HasPrefix(f.term(bo.Y).Key(), "len(") {
+				if ix, _ := fieldLoopTest(iff.Cond, loop.header); ix != nil {
 					continue // the definition counter
 				}
 				// the failing side of an error test
@@ -879,7 +872,6 @@ func rulesC05(w *World, r *Report) {
 	var lookupFn *ssa.Function
 	// the object reader and the helpers extracted from it; a value that is a
 	// helper's parameter stands for the arguments at the helper's call sites
-	helpers := w.privateHelpers(ro)
 	var scopeFns []*ssa.Function
 	for fn := range helpers {
 		scopeFns = append(scopeFns, fn)
@@ -910,6 +902,8 @@ func rulesC05(w *World, r *Report) {
 						one = kn && len(names) > 0
 						for _, nameArg := range names {
 							good := false
+							// (`fldName = names[i]` kept in a variable that a closure captures: the cell's value)
+							nameArg = cellValueAt(nameArg)
 							if ld, isLd := nameArg.(*ssa.UnOp); isLd && ld.Op == token.MUL {
 								if ia, isIA := ld.X.(*ssa.IndexAddr); isIA && ia.Index == counter {
 									good = true
